@@ -4,7 +4,7 @@
    sdk/go/manifest (firstBlock + scan) and of sdk/python/arvados/_ranges.py; [nonempty] drops zero-length segments. *)
 From Coq Require Import NArith List String Ascii Bool.
 From AV Require Import lib.Str model.C10_manifest model.C10_ranges model.C10_fs model.C10_gomanifest model.C10_python
-  lib.Md5 proofs.C10_witness proofs.C10_ranges_proofs proofs.C10_escape_proofs proofs.C10_bytes_proofs proofs.C10_pdh_proofs.
+  lib.Md5 proofs.C10_witness proofs.C10_ranges_proofs proofs.C10_escape_proofs proofs.C10_bytes_proofs proofs.C10_pdh_proofs proofs.C10_gm_proofs.
 Import ListNotations.
 Local Open Scope N_scope.
 
@@ -56,27 +56,29 @@ Theorem C10_python_first_block_is_go_first_block : forall sizes start,
 Proof. exact py_first_eq. Qed.
 Print Assumptions C10_python_first_block_is_go_first_block.
 
-(* a file token accepted by parseManifestStream's range check never panics, provided pos+len does not wrap *)
-Theorem C10_no_panic_gomanifest_partial : forall sizes pos len,
-  0 < len -> go_range_ok sizes pos len = true -> pos + len < 2 ^ 64 -> go_map sizes pos len <> GPanic.
-Proof. exact go_map_no_panic. Qed.
-Print Assumptions C10_no_panic_gomanifest_partial.
+(* no_panic, Go manifest package, for EVERY input string, source path and relocation: Extract and
+   StreamIter+FileSegmentIterByName end in Ok / Err (/ Unmodelled: a stream whose block sizes sum to >= 2^63), never
+   in Panic.  (This was refuted by finding F14 until commit b3717b9 added the wrap test to the range check.) *)
+Theorem C10_no_panic_gomanifest : forall txt src reloc, gm_extract txt src reloc <> Panic /\ gm_iter txt <> Panic.
+Proof. intros txt src reloc. split; [apply gm_extract_no_panic|apply gm_iter_no_panic]. Qed.
+Print Assumptions C10_no_panic_gomanifest.
 
-(* finding F14: with the wrap the check passes and Extract panics (a goroutine panic: the process dies) *)
-Theorem C10_no_panic_gomanifest_refuted :
-  exists txt, wf_manifest txt = false /\ gm_extract txt "." "." = Panic.
-Proof. exists f14_text. exact f14_panics. Qed.
-Print Assumptions C10_no_panic_gomanifest_refuted.
+(* ... range level: whatever the block sizes, an accepted file token (uint64 fields) is mapped without panic *)
+Theorem C10_no_panic_gomanifest_ranges : forall sizes pos len,
+  0 < len -> pos < 2 ^ 64 -> len < 2 ^ 64 -> go_range_ok sizes pos len = true -> go_map sizes pos len <> GPanic.
+Proof. exact go_map_no_panic. Qed.
+Print Assumptions C10_no_panic_gomanifest_ranges.
+
+(* the inputs of the former findings F14 / F15 are now rejected with an error by both Go codecs *)
+Theorem C10_former_findings_rejected :
+  (wf_manifest f14_text = false /\ gm_extract f14_text "." "." = Err) /\
+  (wf_manifest f15_text = false /\ fs_load f15_text = None).
+Proof. split; [exact f14_rejected|exact f15_rejected]. Qed.
+Print Assumptions C10_former_findings_rejected.
 
 Theorem C10_no_panic_python : forall sizes pos len, sizes <> [] -> py_lar sizes pos len <> PyPanic.
 Proof. exact py_lar_no_exception. Qed.
 Print Assumptions C10_no_panic_python.
-
-(* finding F15: a malformed manifest (segment far beyond the stream) is loaded instead of rejected *)
-Theorem C10_malformed_rejected_fs_refuted :
-  exists txt t, wf_manifest txt = false /\ fs_load txt = Some t.
-Proof. eexists; eexists. exact f15_accepted. Qed.
-Print Assumptions C10_malformed_rejected_fs_refuted.
 
 (* ---- escape / unescape, for all names (all byte strings) ---- *)
 Theorem C10_escape_roundtrip : forall s, unescape (escape s) = s.
